@@ -348,6 +348,8 @@ class Parametrized(Box):
         return self.rebuild(data)
 
     def lambdify(self, *symbols, **kwargs):
+        if not any(x in self.free_symbols for x in symbols):
+            return lambda *xs: self
         from sympy import lambdify
         data = lambdify(symbols, self.data, dict(kwargs, modules=Tensor.np))
         return lambda *xs: self.rebuild(data(*xs))
